@@ -438,7 +438,7 @@ def call_expected(case):
         raise Undecided('more positional arguments than control parameters')
     pairs = [[n, v] for n, v in zip(names, call['pos'])]
     pairs += [[n, v] for n, v in call['kw']]
-    return sorted(pairs)
+    return sorted(pairs, key=repr)
 
 
 def call_observed(msg):
@@ -449,7 +449,9 @@ def call_observed(msg):
     rest = list(msg[5:])
     if len(rest) % 2:
         return None
-    return sorted([rest[i], rest[i + 1]] for i in range(0, len(rest), 2))
+    # (names of a wrong message may be numbers: no natural order)
+    return sorted(([rest[i], rest[i + 1]]
+                   for i in range(0, len(rest), 2)), key=repr)
 
 
 # --------------------------------------------------------------------------
